@@ -28,82 +28,6 @@ import (
 	"verif/mc"
 )
 
-// Case is one (chain, path, batch size) execution — also the replay format.
-type Case struct {
-	Chain    Chain  `json:"chain"`
-	Path     string `json:"path"`
-	Batch    int    `json:"batch_size,omitempty"`
-	Readable string `json:"readable,omitempty"`
-}
-
-func (c Case) String() string {
-	s := c.Chain.String() + " :: " + c.Path
-	if c.Batch > 0 {
-		s += fmt.Sprintf(" batchSize=%d", c.Batch)
-	}
-	return s
-}
-
-// tags are computed from the input only.
-func tags(c Case) []string {
-	var t []string
-	pi := pathIndex(c.Path)
-	if pi < 0 {
-		return nil
-	}
-	p := paths[pi]
-	nl, no := 0, 0
-	zeroLimit, negLimit, negOffset := false, false, false
-	for _, o := range c.Chain.Ops {
-		if o.K == "limit" {
-			nl++
-			if o.V == 0 {
-				zeroLimit = true
-			}
-			if o.V < 0 {
-				negLimit = true
-			}
-		} else {
-			no++
-			if o.V < 0 {
-				negOffset = true
-			}
-		}
-	}
-	kind := []string{"multi", "single", "finder", "primitive", "count", "fib"}[p.Kind]
-	if zeroLimit {
-		t = append(t, kind+"+limit-zero")
-	}
-	if negLimit {
-		t = append(t, kind+"+limit-negative")
-	}
-	if negOffset {
-		t = append(t, kind+"+offset-negative")
-	}
-	if nl > 1 {
-		t = append(t, kind+"+limit-override")
-	}
-	if no > 1 {
-		t = append(t, kind+"+offset-override")
-	}
-	if p.Last && c.Chain.Order != 0 {
-		t = append(t, "last+explicit-order")
-	}
-	if p.PadTo > 0 {
-		t = append(t, "array-destination")
-	}
-	if p.PtrPrim {
-		// input-side: the window the chain selects (by the reference model) holds a NULL
-		for _, it := range c.Chain.expectFind() {
-			if it.C == nil {
-				t = append(t, "pluck-null-into-pointer-slice")
-				break
-			}
-		}
-	}
-	return t
-}
-
 // ---------------------------------------------------------------------------
 // enumeration
 
@@ -201,7 +125,24 @@ func cross(ls, os [][]int) [][2][]int {
 	return out
 }
 
-func enumerate(tier string) (chains []Chain, lite []bool, N int, gridSizes map[string]int) {
+// per-chain flags
+const (
+	fLite    = 1 << iota // override-pair grids: reduced path set on reusable handles, FindInBatches into []Item only
+	fHandles             // also run the read paths on reusable Session / WithContext handles
+	fChain               // also run the "read chained on a finisher's return value" cases
+	fSeq                 // also run the "two reads on the same reusable handle" pairs
+)
+
+func inInts(v int, set []int) bool {
+	for _, s := range set {
+		if s == v {
+			return true
+		}
+	}
+	return false
+}
+
+func enumerate(tier string) (chains []Chain, flags []uint8, N int, gridSizes map[string]int) {
 	N = 7
 	if tier == "thorough" {
 		N = 12
@@ -223,8 +164,10 @@ func enumerate(tier string) (chains []Chain, lite []bool, N int, gridSizes map[s
 	smallL := [][]int{{}, {3}, {-1}, {2, 5}, {5, -1}}
 
 	sizesB := []int{0, 3, 7}
+	seqSizes, seqL, seqO := []int{0, 3, N}, []int{2, -1}, []int{1, N}
 	if tier == "thorough" {
-		sizesB = []int{0, 2, 6, 12}
+		sizesB = []int{0, 6, 12}
+		seqSizes, seqL, seqO = []int{0, 1, 5, N}, []int{0, 1, 3, N + 1, -1}, []int{0, 2, N, -1}
 	}
 	grids := []grid{
 		// A: the complete grid size x condition x ordering x limit x offset
@@ -254,9 +197,25 @@ func enumerate(tier string) (chains []Chain, lite []bool, N int, gridSizes map[s
 							}
 							seen[k] = true
 							chains = append(chains, Chain{N: n, Cond: cd, Order: od, Ops: ops})
-							// grids B and C (override pairs) run FindInBatches into []Item only;
-							// the []*Item destination is covered by the complete grid A
-							lite = append(lite, !strings.HasPrefix(g.name, "A:"))
+							var f uint8
+							if !strings.HasPrefix(g.name, "A:") {
+								f |= fLite
+							} else if od != 2 {
+								// reusable handles: quick = one call order, thorough = both
+								if lay == 0 || tier == "thorough" {
+									f |= fHandles
+								}
+								// total+page / Find->Count chained on return values: every
+								// single limit x offset of grid A (one call order, 2 orderings)
+								if lay == 0 && cd < 4 && (tier == "thorough" || cd != 2) {
+									f |= fChain
+								}
+								one := func(vs []int, set []int) bool { return len(vs) == 0 || inInts(vs[0], set) }
+								if lay == 0 && inInts(n, seqSizes) && inInts(cd, []int{0, 3}) && one(lo[0], seqL) && one(lo[1], seqO) {
+									f |= fSeq
+								}
+							}
+							flags = append(flags, f)
 							gridSizes[g.name]++
 						}
 					}
@@ -319,6 +278,11 @@ type stats struct {
 	multiChecked    int64
 	singleChecked   int64
 	primChecked     int64
+	sessionCases    int64 // single reads on a Session handle
+	ctxCases        int64 // single reads on a WithContext handle
+	seqCases        int64 // two reads on the same reusable handle
+	chainCases      int64 // second read chained on the first finisher's return value
+	countThenPage   int64 // Count, then Limit/Offset, then a read, on Count's return value, window non-empty
 }
 
 type checker struct {
@@ -347,6 +311,54 @@ func (ck *checker) activePaths(c Chain) []int {
 	return out
 }
 
+// repPaths: one or two representatives of every destination kind / finisher,
+// used where the full path list would only repeat the same mechanism.
+var repPaths = []string{
+	"Find(&[]Item)", "Model.Find(&[]map)", "Find(&Item)", "Model.Scan(&[]Item)", "Model.Rows+ScanRows(&Item)",
+	`Model.Pluck("id", &[]uint)`, `Model.Pluck("B", &[]string)`, "First(&Item)", "Take(&Item)", "Last(&Item)",
+	"Model.First(&map)", `Model.Select("a").Scan(&int)`, "Model.Count", "FindInBatches(&[]Item)",
+}
+
+// seqFirsts: the first read of a pair on the same reusable handle.
+var seqFirsts = []string{
+	"Model.Count", "Find(&[]Item)", "Find(&Item)", "First(&Item)", "Last(&Item)", `Model.Pluck("B", &[]string)`,
+	"Model.Scan(&[]Item)", "Model.Rows+ScanRows(&Item)", `Model.Select("a").Scan(&int)`, "FindInBatches(&[]Item)",
+}
+
+// findFirsts: Find variants after which Count is chained on the returned handle.
+var findFirsts = []string{"Find(&[]Item)", "Find(&[]*Item)", "Model.Find(&[]map)"}
+
+// repSmall: the smaller representative set (pair grids on a Session handle;
+// reads chained after Count with the limit/offset made before Count).
+var repSmall = []string{
+	"Find(&[]Item)", "Model.Find(&[]map)", "First(&Item)", `Model.Pluck("id", &[]uint)`, "Model.Count", "FindInBatches(&[]Item)",
+}
+
+func inNames(name string, set []string) bool {
+	for _, r := range set {
+		if r == name {
+			return true
+		}
+	}
+	return false
+}
+
+func isRep(name string) bool {
+	for _, r := range repPaths {
+		if r == name {
+			return true
+		}
+	}
+	return false
+}
+
+func batchFor(name string) int {
+	if paths[pathIndex(name)].Kind == kFIB {
+		return 2
+	}
+	return 0
+}
+
 // referenceFind runs the real Find(&[]Item) with an explicit key ordering for
 // the differential comparison of FindInBatches.
 func referenceFind(e *h.Env, c Chain) ([]string, bool) {
@@ -354,42 +366,39 @@ func referenceFind(e *h.Env, c Chain) ([]string, bool) {
 	if rc.Order == 0 {
 		rc.Order = 1
 	}
-	o, _, pm := runPath(e, paths[0], rc, 0, false)
-	if pm != "" || o.err != nil {
+	out := execCase(e, Case{Chain: rc, Path: paths[0].Name}, false)
+	if out.panicMsg != "" || out.o.err != nil {
 		return nil, false
 	}
-	return o.rows, true
+	return out.o.rows, true
 }
 
-// evalOne runs one (chain, path, batch) and reports violations. It returns the
-// observation for statistics.
-func (ck *checker) evalOne(w *worker, e *h.Env, c Chain, ex *expect, p pathDef, batch int, ref []string, refOK bool) obs {
+// evalCase runs one case and reports violations. It returns the observation of
+// the (last) read for statistics.
+func (ck *checker) evalCase(w *worker, e *h.Env, cs Case, ex *expect, ref []string, refOK bool) obs {
 	// executed without driver recording; a failing case is executed a second
 	// time with recording to show the statements (and to confirm determinism)
-	o, _, panicMsg := runPath(e, p, c, batch, false)
+	out := execCase(e, cs, false)
 	atomic.AddInt64(&ck.st.evaluations, 1)
-	fails := verdict(p, c, ex, batch, o, ref, refOK)
-	if panicMsg != "" {
-		fails = []string{"panic or leak in a read path\n" + panicMsg}
-	}
+	fails := judge(cs, ex, out, ref, refOK)
+	desc := describeOutcome(cs, out)
 	if len(fails) > 0 {
-		o2, events, panic2 := runPath(e, p, c, batch, true)
-		cs := Case{Chain: c, Path: p.Name, Batch: batch}
+		out2 := execCase(e, cs, true)
 		cs.Readable = cs.String()
-		if describe(p, o2) != describe(p, o) || panic2 != panicMsg {
-			ck.run.HarnessError("nondeterministic: %s gave %q then %q", cs.String(), describe(p, o)+panicMsg, describe(p, o2)+panic2)
+		if d2 := describeOutcome(cs, out2); d2 != desc || out2.panicMsg != out.panicMsg {
+			ck.run.HarnessError("nondeterministic: %s gave %q then %q", cs.String(), desc+out.panicMsg, d2+out2.panicMsg)
 		}
 		for _, f := range fails {
-			ck.run.Violation(tags(cs), fmt.Sprintf("%s\n%s\nobserved: %s\nstatements:\n  %s", f, cs.String(), describe(p, o), strings.Join(events, "\n  ")), cs)
+			ck.run.Violation(tags(cs), fmt.Sprintf("%s\n%s\nobserved: %s\nstatements:\n  %s", f, cs.String(), desc, joinEvents(out2.events)), cs)
 		}
 	}
 	if w != nil {
-		w.outcomes[describe(p, o)] = struct{}{}
+		w.outcomes[desc] = struct{}{}
 	}
-	return o
+	return out.o
 }
 
-func (ck *checker) evalChain(w *worker, c Chain, lite bool) {
+func (ck *checker) evalChain(w *worker, c Chain, flags uint8) {
 	e := w.env(c.N)
 	st := &ck.st
 	atomic.AddInt64(&st.chains, 1)
@@ -397,6 +406,7 @@ func (ck *checker) evalChain(w *worker, c Chain, lite bool) {
 	window := ex.window
 	matching := c.matching()
 	limit, hasLimit, offset := c.effective()
+	lite := flags&fLite != 0
 
 	nl, no, cancel := 0, 0, false
 	seenPos := map[string]bool{}
@@ -428,15 +438,18 @@ func (ck *checker) evalChain(w *worker, c Chain, lite bool) {
 	}
 
 	ref, refOK := referenceFind(e, c)
-	for _, pi := range ck.activePaths(c) {
+	active := ck.activePaths(c)
+
+	// ---- every read path on a fresh chain ---------------------------------
+	for _, pi := range active {
 		p := paths[pi]
-		if lite && p.LiteSkip {
+		if lite && (p.LiteSkip || (ck.tier != "thorough" && !isRep(p.Name))) {
 			continue
 		}
 		switch p.Kind {
 		case kFIB:
 			for b := 1; b <= ck.N+1; b++ {
-				o := ck.evalOne(w, e, c, ex, p, b, ref, refOK)
+				o := ck.evalCase(w, e, Case{Chain: c, Path: p.Name, Batch: b}, ex, ref, refOK)
 				atomic.AddInt64(&st.fibCalls, 1)
 				if len(o.batches) >= 2 {
 					atomic.AddInt64(&st.fibMultiBatch, 1)
@@ -456,7 +469,7 @@ func (ck *checker) evalChain(w *worker, c Chain, lite bool) {
 				w.shapes[fmt.Sprint(batchShape(o.batches))] = struct{}{}
 			}
 		default:
-			ck.evalOne(w, e, c, ex, p, 0, ref, refOK)
+			ck.evalCase(w, e, Case{Chain: c, Path: p.Name}, ex, ref, refOK)
 			switch p.Kind {
 			case kFinder:
 				if (p.Last && len(ex.last) == 0) || (!p.Last && len(ex.first) == 0) {
@@ -477,6 +490,91 @@ func (ck *checker) evalChain(w *worker, c Chain, lite bool) {
 			}
 		}
 	}
+
+	// ---- every read path on a reusable handle that carries the whole chain ---
+	// grid A: Session and WithContext handles, all paths; pair grids: Session
+	// handle, representative paths.
+	var handles []string
+	if lite {
+		handles = []string{hSession}
+	} else if flags&fHandles != 0 {
+		handles = []string{hSession, hCtx}
+	}
+	for _, hk := range handles {
+		for _, pi := range active {
+			p := paths[pi]
+			if lite && !inNames(p.Name, repSmall) {
+				continue
+			}
+			if hk == hCtx && !isRep(p.Name) {
+				continue
+			}
+			var batches []int
+			if p.Kind == kFIB {
+				batches = []int{2, ck.N + 1}
+				if lite {
+					batches = []int{2}
+				}
+			} else {
+				batches = []int{0}
+			}
+			for _, b := range batches {
+				ck.evalCase(w, e, Case{Chain: c, Path: p.Name, Batch: b, Handle: hk}, ex, ref, refOK)
+				if hk == hSession {
+					atomic.AddInt64(&st.sessionCases, 1)
+				} else {
+					atomic.AddInt64(&st.ctxCases, 1)
+				}
+			}
+		}
+	}
+
+	// ---- a read chained on the handle another finisher returned ---------------
+	// Count -> read ("total + page": limit/offset before Count, and after it on
+	// the returned handle); Find -> Count.
+	if flags&fChain != 0 {
+		for _, hk := range []string{hFresh, hSession, hCtx} {
+			for _, page := range []bool{false, true} {
+				if page && len(c.Ops) == 0 {
+					continue // identical to the other placement
+				}
+				if !page && len(c.Ops) > 0 && hk != hSession && ck.tier != "thorough" {
+					continue // quick: limit/offset before Count only on the Session handle
+				}
+				seconds := repSmall
+				if page {
+					seconds = repPaths
+				}
+				for _, name := range seconds {
+					ck.evalCase(w, e, Case{Chain: c, Mode: mChain, Handle: hk, Page: page, First: "Model.Count", Path: name, Batch: batchFor(name)}, ex, ref, refOK)
+					atomic.AddInt64(&st.chainCases, 1)
+					if page && len(window) > 0 {
+						atomic.AddInt64(&st.countThenPage, 1)
+					}
+				}
+			}
+			for _, f := range findFirsts {
+				ck.evalCase(w, e, Case{Chain: c, Mode: mChain, Handle: hk, First: f, Path: "Model.Count"}, ex, ref, refOK)
+				atomic.AddInt64(&st.chainCases, 1)
+			}
+		}
+	}
+
+	// ---- two reads started from the same reusable handle ------------------------
+	if flags&fSeq != 0 {
+		for _, hk := range []string{hSession, hCtx} {
+			for _, f := range seqFirsts {
+				for _, pi := range active {
+					p := paths[pi]
+					if p.Inline || p.Root == rootTable {
+						continue
+					}
+					ck.evalCase(w, e, Case{Chain: c, Mode: mSeq, Handle: hk, First: f, FirstBatch: batchFor(f), Path: p.Name, Batch: batchFor(p.Name)}, ex, ref, refOK)
+					atomic.AddInt64(&st.seqCases, 1)
+				}
+			}
+		}
+	}
 }
 
 func main() {
@@ -491,15 +589,15 @@ func main() {
 			os.Exit(3)
 		}
 		pi := pathIndex(c.Path)
-		if pi < 0 {
-			fmt.Fprintf(os.Stderr, "unknown path %q\n", c.Path)
+		if pi < 0 || (c.First != "" && pathIndex(c.First) < 0) {
+			fmt.Fprintf(os.Stderr, "unknown path %q / %q\n", c.Path, c.First)
 			os.Exit(3)
 		}
 		ck.N = c.Chain.N
 		w := newWorker()
 		e := w.env(c.Chain.N)
 		p := paths[pi]
-		o, events, pm := runPath(e, p, c.Chain, c.Batch, true)
+		out := execCase(e, c, true)
 		ref, refOK := referenceFind(e, c.Chain)
 		fmt.Printf("case: %s\ntable (key order): %s\nexpected window: %s\n", c.String(), show(rowKeys(tableRows(c.Chain.N))), show(rowKeys(c.Chain.expectFind())))
 		if p.Kind == kFinder {
@@ -508,13 +606,10 @@ func main() {
 		if p.Kind == kFIB && refOK {
 			fmt.Printf("Find with Order(pk): %s\n", show(ref))
 		}
-		fmt.Printf("observed: %s\npanic/leak: %q\nstatements:\n  %s\n", describe(p, o), pm, strings.Join(events, "\n  "))
+		fmt.Printf("observed: %s\npanic/leak: %q\nstatements:\n  %s\n", describeOutcome(c, out), out.panicMsg, joinEvents(out.events))
 		// judged directly (not through run.Violation) so that a case listed as a
 		// known finding still shows that it violates
-		fails := verdict(p, c.Chain, expectOf(c.Chain), c.Batch, o, ref, refOK)
-		if pm != "" {
-			fails = append(fails, "panic or leak in a read path\n"+pm)
-		}
+		fails := judge(c, expectOf(c.Chain), out, ref, refOK)
 		for _, f := range fails {
 			fmt.Printf("VIOLATES: %s\n", strings.ReplaceAll(f, "\n", "\n    "))
 		}
@@ -526,7 +621,7 @@ func main() {
 		return
 	}
 
-	chains, lite, N, gridSizes := enumerate(args.Tier)
+	chains, flags, N, gridSizes := enumerate(args.Tier)
 	ck.N = N
 	budget := 85 * time.Second
 	if args.Tier == "thorough" {
@@ -557,7 +652,7 @@ func main() {
 				if atomic.LoadInt32(&timedOut) != 0 {
 					break
 				}
-				ck.evalChain(w, chains[n], lite[n])
+				ck.evalChain(w, chains[n], flags[n])
 			}
 			// the read paths must not have written anything
 			var sizes []int
@@ -601,6 +696,11 @@ func main() {
 		floor("count_checked", st.countChecked, 50)
 		floor("override_chains", st.overrideChains, 1000)
 		floor("cancel_chains", st.cancelChains, 200)
+		floor("session_handle_cases", st.sessionCases, 10000)
+		floor("context_handle_cases", st.ctxCases, 5000)
+		floor("two_reads_same_handle_cases", st.seqCases, 5000)
+		floor("read_chained_on_return_value_cases", st.chainCases, 10000)
+		floor("count_then_page_cases", st.countThenPage, 5000)
 		floor("distinct_outcomes", int64(outcomes.Len()), 200)
 		floor("distinct_batch_shapes", int64(shapes.Len()), 20)
 	}
@@ -613,32 +713,38 @@ func main() {
 	run.Assume("single-record finders: the finisher's own Limit(1) overrides any earlier Limit of the chain (override rule), the chain's offset stays; Last after an explicit ascending key ordering follows the user's ordering (ORDER BY id, id DESC) — the 'highest key' clause is checked only for chains without ordering")
 	run.Assume("primitive destinations (Pluck/Scan/Find into &int, &uint, &string) over several rows: only membership of the value in the window is checked (which row lands is not stated); exact when the window has <= 1 row")
 	run.Assume("Count is compared with len(Find) only when the effective limit and offset are absent (incl. cancelled by a negative value); with a limit/offset it is executed but only errors/panics are judged")
+	run.Assume("reads chained on a finisher's return value are checked only for the pairs gorm documents: Count -> any read ('total + page') and Find -> Count. Left out as ill-defined: chaining on the handle returned by First/Take/Last (it keeps the finder's own LIMIT 1 and ORDER BY), Pluck/Select-Scan (keeps the SELECT list), Scan/Rows (no reusable handle), FindInBatches (keeps its ORDER BY and the last cursor condition), Find -> Find/First (keeps Dest-derived state); a fresh (non-Session) chain used for two separate statements (documented as not reusable)")
 	run.Assume("outside the alphabet: user orderings contradicting key order for FindInBatches; Limit(0)/Offset(0) as the later value of an override pair; FindInBatches into maps; Group/Distinct/Joins; callbacks returning errors")
 	run.Finish(map[string]interface{}{
-		"evaluations":                st.evaluations,
-		"distinct_nontrivial":        ck.distinct.Len(),
-		"rule":                       fmt.Sprintf("N=%d. chains = table size x condition x ordering x sequence of Limit/Offset calls, grids %v (A: every single Limit in {absent,0,1..N+1,-1} x every single Offset in {absent,0..N,-1} x both call orders x all sizes 0..N x all conditions x 3 orderings; B: every override/cancel pair of one kind x a small set of the other kind x 4 call layouts; C (thorough): limit pairs x offset pairs, alternating call layout). Every chain is executed through every read path (%d path variants) and FindInBatches with every batch size 1..N+1 into []Item and (grid A) []*Item; evaluations = (chain,path,batch) executions. A chain is non-trivial when its expected window is non-empty and smaller than the table (condition, limit or offset really cut something); distinct = distinct such chains", N, gridSizes, len(paths)),
-		"samples":                    ck.samples.List(),
-		"exhaustive":                 exhaustive,
-		"chains":                     st.chains,
-		"chains_enumerated":          len(chains),
-		"table_sizes":                N + 1,
-		"path_variants":              len(paths),
-		"distinct_outcomes":          outcomes.Len(),
-		"distinct_batch_shapes":      shapes.Len(),
-		"fib_calls":                  st.fibCalls,
-		"fib_multi_batch":            st.fibMultiBatch,
-		"fib_partial_last_batch":     st.fibPartialLast,
-		"fib_limit_cuts_mid_batch":   st.fibLimitCuts,
-		"fib_offset_beyond_end":      st.fibOffsetBeyond,
-		"fib_offset_inside":          st.fibOffsetInside,
-		"finder_found":               st.finderFound,
-		"finder_not_found":           st.finderNotFound,
-		"count_checked_against_find": st.countChecked,
-		"override_chains":            st.overrideChains,
-		"cancel_chains":              st.cancelChains,
-		"multi_row_path_checks":      st.multiChecked,
-		"single_record_dest_checks":  st.singleChecked,
-		"primitive_dest_checks":      st.primChecked,
+		"evaluations":                        st.evaluations,
+		"distinct_nontrivial":                ck.distinct.Len(),
+		"rule":                               fmt.Sprintf("N=%d. chains = table size x condition x ordering x sequence of Limit/Offset calls, grids %v (A: every single Limit in {absent,0,1..N+1,-1} x every single Offset in {absent,0..N,-1} x both call orders x all sizes 0..N x all conditions x 3 orderings; B: every override/cancel pair of one kind x a small set of the other kind x 4 call layouts; C (thorough): limit pairs x offset pairs, alternating call layout). Every chain is executed through every read path (%d path variants) and FindInBatches with every batch size 1..N+1 into []Item and (grid A) []*Item; Besides fresh chains, grid A chains (orderings none / Order(id); quick: one call order) are also run from reusable handles chain.Session(&gorm.Session{}) (all paths) and chain.WithContext(ctx) (14 representative paths), pair grids from a Session handle (6 representative paths; quick runs the pair grids with the representative paths only). Two-read cases: (1) tx := chain[.Session|.WithContext].Count(&n), then a read on tx — with the Limit/Offset calls made before Count (6 reads) and after Count on the returned handle, 'total + page' (14 reads) — and Find(&[]Item|&[]*Item|&[]map) followed by Count on the returned handle, for every single limit x offset of grid A; (2) base := chain.Session|WithContext; base -> first read (10 kinds); base -> second read (every path), on a sub-grid; both reads are judged against the same reference window. evaluations = cases executed (a case = one read, or a pair of reads). A chain is non-trivial when its expected window is non-empty and smaller than the table (condition, limit or offset really cut something); distinct = distinct such chains", N, gridSizes, len(paths)),
+		"samples":                            ck.samples.List(),
+		"exhaustive":                         exhaustive,
+		"chains":                             st.chains,
+		"chains_enumerated":                  len(chains),
+		"table_sizes":                        N + 1,
+		"path_variants":                      len(paths),
+		"distinct_outcomes":                  outcomes.Len(),
+		"distinct_batch_shapes":              shapes.Len(),
+		"fib_calls":                          st.fibCalls,
+		"fib_multi_batch":                    st.fibMultiBatch,
+		"fib_partial_last_batch":             st.fibPartialLast,
+		"fib_limit_cuts_mid_batch":           st.fibLimitCuts,
+		"fib_offset_beyond_end":              st.fibOffsetBeyond,
+		"fib_offset_inside":                  st.fibOffsetInside,
+		"finder_found":                       st.finderFound,
+		"finder_not_found":                   st.finderNotFound,
+		"count_checked_against_find":         st.countChecked,
+		"override_chains":                    st.overrideChains,
+		"cancel_chains":                      st.cancelChains,
+		"multi_row_path_checks":              st.multiChecked,
+		"single_record_dest_checks":          st.singleChecked,
+		"primitive_dest_checks":              st.primChecked,
+		"session_handle_cases":               st.sessionCases,
+		"context_handle_cases":               st.ctxCases,
+		"two_reads_same_handle_cases":        st.seqCases,
+		"read_chained_on_return_value_cases": st.chainCases,
+		"count_then_page_cases":              st.countThenPage,
 	})
 }
